@@ -38,7 +38,7 @@ type fileSpec struct {
 }
 
 type step struct {
-	Op     string    `json:"op"` // add update delete reload restart
+	Op     string    `json:"op"` // add update delete reload restore restart
 	Name   string    `json:"name,omitempty"`
 	Key    int       `json:"key"`            // universe index; <0: wrong-length key (-1: one short, -2: one long, -3: other cipher's length, -4: empty)
 	File   *fileSpec `json:"file,omitempty"` // reload: edit the file to this first
@@ -100,8 +100,10 @@ func drawPlan(rt *rapid.T, maxSteps int) plan {
 			s.Op = "update"
 		case k < 75:
 			s.Op = "delete"
-		case k < 92:
+		case k < 88:
 			s.Op = "reload"
+		case k < 94:
+			s.Op = "restore" // put an earlier *loaded* document back byte for byte, then reload
 		default:
 			s.Op = "restart"
 		}
@@ -185,6 +187,8 @@ type executor struct {
 	pending    bool              // an acknowledged change has not been through a settle yet
 	harnessDoc []byte            // non-nil: the harness wrote these bytes and no save has happened since
 	syncBytes  []byte            // file bytes at the last successful load or completed save
+	loaded     [][]byte          // every document the server has loaded successfully so far (start-up and reloads)
+	savedSince bool              // the server has rewritten the file since its last successful load
 	out        *outcome
 	history    []string
 }
@@ -229,6 +233,7 @@ func (x *executor) settle() {
 	synctest.Wait()
 	if x.pending {
 		x.pending = false
+		x.savedSince = true
 		x.harnessDoc = nil
 		if b, err := os.ReadFile(x.path); err == nil {
 			x.syncBytes = b
@@ -321,6 +326,7 @@ func (x *executor) run() {
 	}
 	x.model = init
 	x.syncBytes = doc
+	x.loaded = append(x.loaded, doc)
 	x.harnessDoc = doc
 	if err := x.start(); err != nil {
 		x.out.violation = x.failf("startup-failed", "valid store %q refused at start-up: %v", doc, err)
@@ -435,9 +441,38 @@ func (x *executor) run() {
 				x.out.violation = x.failf("status-mismatch/delete", "%s answered %d %q (user exists in model: %v)", desc, code, body, exists)
 				return
 			}
-		case "reload":
+		case "reload", "restore":
 			var content []byte
-			if s.File != nil {
+			restored := false
+			if s.Op == "restore" {
+				// let a pending save happen, then put back the newest earlier-loaded document whose
+				// bytes differ from what is in the file now
+				x.settle()
+				cur, err := os.ReadFile(x.path)
+				if err != nil {
+					x.out.violation = "HARNESS read: " + err.Error()
+					return
+				}
+				for j := len(x.loaded) - 1; j >= 0 && content == nil; j-- {
+					if !bytes.Equal(x.loaded[j], cur) {
+						content = x.loaded[j]
+					}
+				}
+				if content == nil {
+					class = "restore-skipped-nothing-to-restore"
+					break
+				}
+				if err := credx.WriteStore(x.path, content); err != nil {
+					x.out.violation = "HARNESS write: " + err.Error()
+					return
+				}
+				x.harnessDoc = content
+				restored = true
+				if x.savedSince {
+					x.lab("restore-loaded-content-after-save")
+					x.out.nontriv = true
+				}
+			} else if s.File != nil {
 				content = s.File.bytes(kl)
 				if err := credx.WriteStore(x.path, content); err != nil {
 					x.out.violation = "HARNESS write: " + err.Error()
@@ -454,7 +489,9 @@ func (x *executor) run() {
 			want, _, derr := credx.DecodeStore(content, kl)
 			code, body := x.rig.Reload()
 			desc = fmt.Sprintf("reload(%q)", content)
-			if s.File == nil {
+			if restored {
+				desc = fmt.Sprintf("restore-earlier-loaded-file+reload(%q)", content)
+			} else if s.File == nil {
 				desc = "reload(untouched file)"
 			}
 			x.history = append(x.history, fmt.Sprintf("%s->%d", desc, code))
@@ -482,6 +519,11 @@ func (x *executor) run() {
 				}
 				x.model = want
 				x.syncBytes = content
+				x.loaded = append(x.loaded, content)
+				x.savedSince = false
+				if restored {
+					class = "restore-" + class
+				}
 			case derr != nil:
 				x.out.violation = x.failf("invalid-file-accepted", "%s answered %d but the file is invalid: %v", desc, code, derr)
 				return
@@ -607,11 +649,12 @@ func workDir() string {
 var recSeq = ev.New("C08", "sequential-plans",
 	"rapid stateful plans: key size {16,32} x stores {tcp,udp,both}; initial store over 4 names x 4 keys; 1..12 steps of "+
 		"add/update/delete through the ssm handlers (names incl. empty, keys incl. wrong lengths), edit-file-then-POST reload-users "+
-		"(valid, duplicate-key, wrong-length, truncated, non-object, untouched), save-then-restart; after every step a real client per "+
+		"(valid, duplicate-key, wrong-length, truncated, non-object, untouched), restore-an-earlier-loaded-document-byte-for-byte-then-reload "+
+		"(after the debounce save), save-then-restart; after every step a real client per "+
 		"universe key (+1 never-issued key) per transport, GET users, and (after the 5 s debounce on a fake clock) the decoded store "+
 		"file are compared with a name->key model. Non-trivial: an accepted delete or key rotation followed by a handshake with the old key, "+
 		"a duplicate-key attempt, or a reload that changes the set. Distinct key = key size + stores + op/outcome trace").
-	Require("deleted-key-probed", "rotated-key-probed", "dupkey-attempt", "reload-edited", "reload-invalid-rejected", "restart",
+	Require("deleted-key-probed", "rotated-key-probed", "dupkey-attempt", "reload-edited", "restore-loaded-content-after-save", "reload-invalid-rejected", "restart",
 		"mode/tcp", "mode/udp", "mode/both", "keylen/16", "keylen/32")
 
 func finishCase(rec *ev.Recorder, p plan, out *outcome) {
